@@ -2,6 +2,6 @@ SPECIFICATION Spec
 CONSTANTS
   Vals = {"a","b","c"}
   MaxLen = 4
-INVARIANT TypeInv GetExact Get2Exact HugeRefused ReadBackExact NothingWithoutContainer BlockLaw
-PROPERTY GetAfterPush SetChangesOne RefusalKeeps BuildIsInput
+INVARIANT TypeInv GetExact Get2Exact HugeRefused ReadBackExact NothingWithoutContainer BlockLaw BackExact MaintainExact ResizeExact
+PROPERTY GetAfterPush SetChangesOne RefusalKeeps BuildIsInput ClearEmpties SwapTakesOther
 CHECK_DEADLOCK FALSE
